@@ -53,6 +53,94 @@ def poison_call(ser, seq, kind, token):
     return data, item, ["error", seq, ser]
 
 
+def stream_call(ser, seq, token):
+    """(bytes, model item) of a call whose result is a plain iterator: answered by an item-stream reply, the stream stays open"""
+    from Pyro5 import protocol, serializers
+    from Pyro5.callcontext import current_context
+    payload = serializers.serializers_by_id[ser].dumpsCall("poison", "items", (token,), {})
+    old = current_context.correlation_id
+    current_context.correlation_id = None
+    try:
+        data = bytes(protocol.SendingMessage(protocol.MSG_INVOKE, 0, seq, ser, payload).data)
+    finally:
+        current_context.correlation_id = old
+    return data, ["M", "4", str(ser), str(seq), "0", "C", "M", str(token), "st", "g", "1", "0", "-", "-", "-", "0", "ot"]
+
+
+# ---- payloads that carry a Proxy: any component of a handshake / call / batch payload replaced by one ---------------------
+PROXY_COMPONENTS_FRESH = ["hs-data", "hs-handshake", "hs-object"]
+PROXY_COMPONENTS_ACTIVE = ["call-objid", "call-method", "call-vargs", "call-arg", "call-kwargs",
+                           "batch-vargs", "batch-item", "batch-method", "batch-args", "batch-kwargs"]
+
+
+def proxy_wire(addr, flavour):
+    """the serialised form of a Pyro5.client.Proxy for PYRO:trap@addr (a plain dict: nothing here ever touches a Proxy object);
+    flavour "bare": no metadata (ANY attribute access makes the proxy connect), "dictlike": claims the mapping / string methods"""
+    methods = [] if flavour == "bare" else ["__getitem__", "__iter__", "__len__", "__contains__", "keys", "startswith", "get"]
+    return {"__class__": "Pyro5.client.Proxy", "state": ["PYRO:trap@%s:%d" % addr, [], methods, [], None, None]}
+
+
+def raw_call_payload(ser_id, obj, method, vargs, kwargs):
+    """a call payload of plain data in each serializer's own layout (dumpsCall would iterate / convert vargs itself)"""
+    import json as _json
+    import marshal
+    import msgpack
+    import serpent
+    if ser_id == 1:
+        return serpent.dumps((obj, method, vargs, kwargs), module_in_classname=True, bytes_repr=True)
+    if ser_id == 2:
+        return marshal.dumps((obj, method, vargs, kwargs))
+    if ser_id == 3:
+        return _json.dumps({"object": obj, "method": method, "params": vargs, "kwargs": kwargs}).encode("utf-8")
+    return msgpack.packb((obj, method, vargs, kwargs), use_bin_type=True)
+
+
+def proxy_message(ser, seq, component, addr, flavour, token):
+    """(bytes, model item or None) of a handshake / call / batch message in which `component` is a serialised Proxy"""
+    from Pyro5 import protocol, serializers
+    from Pyro5.callcontext import current_context
+    P = proxy_wire(addr, flavour)
+    flags, mtype = 0, protocol.MSG_INVOKE
+    spec = {"token": token}
+    head = ["M", "4", str(ser), str(seq), "0"]
+    U = head + ["U", "ot"]
+    if component.startswith("hs-"):
+        mtype = protocol.MSG_CONNECT
+        head = ["M", "1", str(ser), str(seq), "0"]
+        data = {"hs-data": P, "hs-handshake": {"handshake": P, "object": "target"}, "hs-object": {"handshake": "accept", "object": P}}[component]
+        payload = serializers.serializers_by_id[ser].dumps(data)
+        item = head + {"hs-data": ["H", "0", "0", "a"], "hs-handshake": ["H", "1", "1", "a"], "hs-object": ["H", "1", "0", "a"]}[component] + ["ot"]
+    elif component.startswith("call-"):
+        obj, method, vargs, kwargs = "target", "run", [spec], {}
+        item = U
+        if component == "call-objid":
+            obj = P
+            item = head + ["C", "X", "ot"]
+        elif component == "call-method":
+            method = P              # stays plain data (never recreated into a class): refused as a non-string member name
+        elif component == "call-vargs":
+            vargs = P
+        elif component == "call-kwargs":
+            kwargs = P
+        else:       # an ARGUMENT that is a proxy is ordinary Pyro usage: the method gets it (and here does not look at it)
+            obj, method, vargs = "poison", "ignore", [P, token]
+            item = head + ["C", "M", str(token), "r", "g", "1", "0", "-", "-", "-", "0", "ot"]
+        payload = raw_call_payload(ser, obj, method, vargs, kwargs)
+    else:
+        flags = protocol.FLAGS_BATCH
+        calls = {"batch-vargs": P, "batch-item": [P], "batch-method": [[P, [spec], {}]], "batch-args": [["run", P, {}]],
+                 "batch-kwargs": [["run", [spec], P]]}[component]
+        payload = raw_call_payload(ser, "target", "<batch>", calls, {})
+        item = U                # the whole batch is refused with an error reply before anything is invoked
+    old = current_context.correlation_id
+    current_context.correlation_id = None
+    try:
+        data = bytes(protocol.SendingMessage(mtype, flags, seq, ser, payload).data)
+    finally:
+        current_context.correlation_id = old
+    return data, item
+
+
 def base_of(m):
     """a rendered valid message with what the model needs to know about it"""
     data = srvkit.render_msg(m)
@@ -284,6 +372,9 @@ class HistGen:
         self.rng = rng
         self.g = c08.Gen(rng)
         self.g.token = 1000
+        from props import c05_rig
+        t = c05_rig.Trap.get()
+        self.trap = {"blackhole": t.blackhole, "closed": t.closed}
         self.exhaustive = exhaustive      # {'fresh': [...], 'active': [...]}: (phase, kind, bytes, base) of the systematic sweep still to use
         self.checks = []
 
@@ -360,6 +451,27 @@ class HistGen:
             if ending_needed and r.random() < 0.7:
                 e = r.choice(["eof", "reset", "timeout"])
                 acts.append(self.send(conn, b"", e, e != "timeout" and r.random() < 0.3, [["X" if e != "timeout" else "T", "ot"]]))
+            return acts
+        if 0.47 <= x < 0.53 and not fresh:
+            # an item stream is opened and never read: the peer just leaves (the daemon's housekeeping has to discard it)
+            self.g.token += 1
+            data, item = stream_call(r.choice([1, 2, 3, 4]), r.randint(0, 65535), self.g.token)
+            acts.append(self.send(conn, data, None, False, [item]))
+            acts[-1].append("streamunread")
+            e = r.choice(["eof", "reset"])
+            acts.append(self.send(conn, b"", e, False, [["X", "ot"]]))
+            return acts
+        if 0.35 <= x < 0.47 and self.trap is not None:
+            # a payload in which one component is a serialised Proxy pointing at an endpoint of the harness
+            comp = r.choice(PROXY_COMPONENTS_FRESH if fresh else PROXY_COMPONENTS_ACTIVE)
+            self.g.token += 1
+            kind = r.choice(["blackhole", "blackhole", "closed"])
+            data, item = proxy_message(r.choice([1, 2, 3, 4]), r.randint(0, 65535), comp, self.trap[kind],
+                                       r.choice(["bare", "dictlike"]), self.g.token)
+            ending = r.choice([None, "eof", "reset"]) if not fresh or comp != "hs-handshake" else None
+            items = None if item is None else [item] + ([["X", "ot"]] if ending else [])
+            acts.append(self.send(conn, data, ending, False, items))
+            acts[-1].append("proxy:%s:%s" % (comp, kind))
             return acts
         if x < 0.35:
             # an invalid prefix from a peer that then stays connected and silent: must be refused without waiting for more
@@ -438,6 +550,7 @@ class HistGen:
         m = call_msg(ser, 78, {"token": self.g.token})
         steps.append(self.send(fresh, srvkit.render_msg(m), None, False, [c08.item_tokens(("msg", m)) + ["ot"]], ["fresh-call", 78, ser, self.g.token]))
         return {"servertype": servertype, "poolsize": poolsize, "commtimeout": commtimeout, "nconn": fresh + 1,
+                "linger": r.choice([None, 1e-9, 1e-9]),      # ITER_STREAM_LINGER: default (30 s) or "already over at the next housekeeping"
                 "witnesses": list(range(nwit)), "hostile": hostile, "fresh": fresh, "pre": pre, "post": post, "steps": steps}
 
 
